@@ -35,6 +35,7 @@ Proof.
 Qed.
 
 Section WithOracles.
+Set Default Proof Using "Type".
 Variable login : list N -> N -> list N.
 Variable unz : list N -> option (list N).
 Variable qi : option inst.
